@@ -27,6 +27,10 @@ extern ChunkList      UsedDataChunks, UsedCodeChunks;
 extern void (*Disassemble)(
         LargeWord Address, tDisassInfo* pInfo, Boolean IsData, int DataSize);
 
+/* hexadecimal constants of the target's assembler syntax: 0nnnnh instead of $nnnn */
+
+extern Boolean IntelHexSyntax;
+
 extern void dasmdef_init(void);
 
 #endif /* DASMDEF_H */
